@@ -152,6 +152,22 @@ func (rc *RunCtx) finish() int {
 		}
 		exit = 1
 	}
+	if reported > 0 {
+		byClause := map[string]int{}
+		for _, v := range rc.Viol {
+			if rc.matchKnown(v.Sig) == nil {
+				byClause[v.Clause]++
+			}
+		}
+		ks := make([]string, 0, len(byClause))
+		for k := range byClause {
+			ks = append(ks, k)
+		}
+		sort.Strings(ks)
+		for _, k := range ks {
+			fmt.Printf("  unexplained %-32s %d\n", k, byClause[k])
+		}
+	}
 	if reported > 25 {
 		fmt.Printf("  (%d further violations of %s not listed)\n", reported-25, rc.ID)
 	}
